@@ -19,7 +19,8 @@ func worldFromSpec(v *spec.V, nregs int) *model.World { return worldFromSpecRout
 
 // construction routes: the same logical tree reached through different library operations
 var routeNames = []string{"Add/Set", "", "every list is a SubList(0,0) result", "every list is a Concat result", "one-element lists by NewListOf(x,1)",
-	"parsed from its own String()", "a Clone of a Clone", "every object is a Merge result", "every object is a Pluck result"}
+	"parsed from its own String()", "a Clone of a Clone", "every object is a Merge result", "every object is a Pluck result",
+	"runs of equal scalars built by NewListOf (one shared field object per run), pieces joined by Concat", "nested containers are user types embedding List/Object (derived structures)"}
 
 func worldFromSpecRoute(v *spec.V, nregs int, route int) *model.World {
 	w := model.NewWorld(nregs)
@@ -49,8 +50,11 @@ func worldFromSpecRoute(v *spec.V, nregs int, route int) *model.World {
 		w.Regs[0] = w.Adopt(real)
 		return w
 	}
+	depthNow := -1
 	var build func(v *spec.V) (interface{}, interface{})
 	build = func(v *spec.V) (interface{}, interface{}) {
+		depthNow++
+		defer func() { depthNow-- }()
 		switch v.K {
 		case spec.Lst:
 			m, r := model.NewL(), at.NewList()
@@ -60,6 +64,28 @@ func worldFromSpecRoute(v *spec.V, nregs int, route int) *model.World {
 				r.Add(re)
 			}
 			switch {
+			case route == 9:
+				nl := at.NewList()
+				for i := 0; i < len(m.E); {
+					j := i
+					_, isC := m.E[i].(*model.L)
+					_, isO := m.E[i].(*model.O)
+					for j < len(m.E) && !isC && !isO && model.Same(m.E[j], m.E[i]) {
+						j++
+					}
+					if j == i {
+						nl = nl.Concat(at.NewList(r.Get(i)))
+						i++
+						continue
+					}
+					nl = nl.Concat(at.NewListOf(r.Get(i), j-i))
+					i = j
+				}
+				r = nl
+			case route == 10 && depthNow > 0:
+				d := &DL{List: r, tag: "nested"}
+				d.Init(d)
+				r = d
 			case route == 2:
 				r = r.SubList(0, 0)
 			case route == 3:
@@ -77,6 +103,12 @@ func worldFromSpecRoute(v *spec.V, nregs int, route int) *model.World {
 				r.Set(e.K, re)
 			}
 			switch route {
+			case 10:
+				if depthNow > 0 {
+					d := &DO{Object: r, tag: "nested"}
+					d.Init(d)
+					r = d
+				}
 			case 7:
 				r = at.NewObject().Merge(r)
 			case 8:
@@ -223,6 +255,7 @@ type c11Cfg struct {
 	startNodes int
 	startDepth int
 	keys       []string // keys of the start trees (default a, b)
+	routes     []int    // construction routes of the start trees (default: plain Add/Set)
 }
 
 func c11Paths(segs []string, k int, rootSigil byte) []string {
@@ -445,18 +478,26 @@ func c11System(cfg c11Cfg) *bfs.System[W, tfOp] {
 		keys = []string{"a", "b"}
 	}
 	en := spec.NewEnum([]*spec.V{spec.NilV, spec.I(1), spec.S("s")}, keys)
+	routes := cfg.routes
+	if routes == nil {
+		routes = []int{0}
+	}
 	en.Containers(cfg.startNodes, cfg.startDepth, func(v *spec.V) bool {
-		inits = append(inits, func() W {
-			w := worldFromSpec(v, 1)
-			w.ProbeKeys = append([]string{"c"}, keys...)
-			w.ProbeVals = []interface{}{nil, 1, 2}
-			return w
-		})
+		for _, route := range routes {
+			route := route
+			inits = append(inits, func() W {
+				w := worldFromSpecRoute(v, 1, route)
+				w.Tag = fmt.Sprintf("route%d|", route)
+				w.ProbeKeys = append([]string{"c"}, keys...)
+				w.ProbeVals = []interface{}{nil, 1, 2}
+				return w
+			})
+		}
 		return true
 	})
 	return &bfs.System[W, tfOp]{Name: cfg.name, Inits: inits, Ops: c11Ops(cfg), Apply: c11Apply, Label: c11Label,
 		Check: func(w W) (string, string) { return w.Check() }, Key: func(w W) string { return w.Key() },
-		MaxDepth: cfg.depth, Describe: func(w W) string { return w.Describe() }}
+		MaxDepth: cfg.depth, Describe: func(w W) string { return w.Describe() }, Touch: func(w W) { w.Touch() }}
 }
 
 func runC11(c *ev.Ctx) {
@@ -471,6 +512,8 @@ func runC11(c *ev.Ctx) {
 	cfgs = append(cfgs,
 		c11Cfg{name: "two writes (unset/set) from every tree (<=4 nodes), paths of <=2 segments with padding indices", segs: []string{".a", "#0", "#1", "#3", "#4"}, maxSegs: 2, depth: 2, values: []vref{{0, 1}}, startNodes: 4, startDepth: 3},
 		c11Cfg{name: "one write, multi-byte and multi-character keys", segs: []string{"." + e9, ".ab", "#0", "#1", "#2"}, maxSegs: 3, depth: 1, values: []vref{{0, 1}, {3, 0}, {5, 0}}, badUnset: bad[:4], startNodes: 4, startDepth: 3, keys: []string{e9, "ab"}})
+	cfgs = append(cfgs,
+		c11Cfg{name: "one write, lists whose equal elements share one field object (NewListOf runs) or are SubList/Concat results", segs: []string{".a", "#0", "#1", "#2", "#4"}, maxSegs: 2, depth: 1, values: []vref{{0, 1}, {0, 2}, {3, 0}}, startNodes: 4, startDepth: 3, routes: []int{9, 2, 3}})
 	if c.Thorough() {
 		cfgs[0].startNodes = 5
 		cfgs[1].depth = 4
